@@ -50,6 +50,9 @@ type wlWorkload struct {
 	Ops       []wlOp
 	Instances map[string][]string // instance -> read paths
 	Versions  []string            // uuids (fixed) whose data is snapshotted
+	// Rewrites: instance whose unversioned properties (extents) a multi-write operation of this workload rewrites
+	// together with its data, so that a cut-short operation may leave any version of it in an intermediate state
+	Rewrites string
 }
 
 func okResp() vsrv.Resp { return vsrv.Resp{Code: 200} }
@@ -221,6 +224,55 @@ func wlWorkloads() map[string]*wlWorkload {
 			{"third-repo", true, post("repos", fmt.Sprintf(`{"alias":"w3","description":"d","root":%q}`, D))},
 		}}
 
+	// W8: ROI (extents live in the instance properties, spans in the store)
+	ws["roi"] = &wlWorkload{Name: "roi", Rewrites: "r", Versions: []string{R, A}, Instances: map[string][]string{"r": {"roi", "partition?batchsize=2", "mask/0_1_2/24_16_24/-8_0_-8", "ptquery-probe"}},
+		Ops: []wlOp{newRepo, inst(R, "roi", "r", `,"BlockSize":"8,8,8"`),
+			{"post-roi", false, post("node/"+R+"/r/roi", `[[0,0,0,1],[1,0,0,0]]`)},
+			{"repost-same-z", false, post("node/"+R+"/r/roi", `[[0,1,0,0],[1,1,1,2]]`)},
+			commit(R), newver(R, A),
+			{"repost-other-z", false, post("node/"+A+"/r/roi", `[[-1,0,0,0],[2,0,0,1]]`)},
+			{"delete-roi", false, del("node/" + A + "/r/roi")},
+			{"post-after-delete", false, post("node/"+A+"/r/roi", `[[0,0,1,1]]`)},
+			{"repost-same-z-child", false, post("node/"+A+"/r/roi", `[[0,1,0,1]]`)},
+		}}
+
+	// W9: grayscale volume (extents in the instance properties, blocks in the store)
+	gray := func(u string, ox, oy, oz int, val byte) func(*wlState) vsrv.Resp {
+		return func(*wlState) vsrv.Resp {
+			b := make([]byte, 32*32*16)
+			for i := range b {
+				b[i] = val + byte(i%7)
+			}
+			return vsrv.Post(fmt.Sprintf("node/%s/g/raw/0_1_2/32_32_16/%d_%d_%d", u, ox, oy, oz), b)
+		}
+	}
+	ws["imageblk"] = &wlWorkload{Name: "imageblk", Rewrites: "g", Versions: []string{R, A}, Instances: map[string][]string{"g": {"raw/0_1_2/64_32_32/0_0_0", "raw/0_1_2/32_32_16/32_32_16", "metadata"}},
+		Ops: []wlOp{newRepo, inst(R, "uint8blk", "g", `,"BlockSize":"16,16,16","Background":"7"`),
+			{"post-raw", false, gray(R, 0, 0, 0, 10)},
+			{"post-raw-extend", false, gray(R, 32, 0, 16, 50)},
+			commit(R), newver(R, A),
+			{"overwrite", false, gray(A, 0, 0, 0, 90)},
+			{"post-raw-extend-child", false, gray(A, 32, 32, 16, 120)},
+		}}
+
+	// W10: sync relations (annotation follows a labelmap, labelsz follows the annotation)
+	ws["sync"] = &wlWorkload{Name: "sync", Versions: []string{R, A}, Instances: map[string][]string{"ann": {"all-elements", "label/1", "label/2", "label/3", "tag/t"}, "lsz": {"count/1/PostSyn", "count/2/PostSyn", "count/2/PreSyn", "count/3/PostSyn", "top/3/AllSyn"}},
+		Ops: []wlOp{newRepo, inst(R, "labelmap", "lm", `,"BlockSize":"16,16,16"`),
+			{"ingest", false, func(*wlState) vsrv.Resp {
+				v := newLMVol([3]int{0, 0, 0}, [3]int{c08NX, c08NY, c08NZ})
+				copy(v.v, c08InitialVolume(false))
+				return lmPostRaw(R, "lm", v, false)
+			}},
+			inst(R, "annotation", "ann", ""), inst(R, "labelsz", "lsz", ""),
+			{"sync-ann", true, post("node/"+R+"/ann/sync", `{"sync":"lm"}`)},
+			{"sync-lsz", true, post("node/"+R+"/lsz/sync", `{"sync":"ann"}`)},
+			{"post-elements", false, post("node/"+R+"/ann/elements", `[{"Pos":[2,2,2],"Kind":"PostSyn","Tags":["t"],"Prop":{},"Rels":[]},{"Pos":[20,4,8],"Kind":"PostSyn","Tags":[],"Prop":{},"Rels":[]},{"Pos":[21,4,8],"Kind":"PreSyn","Tags":["t"],"Prop":{},"Rels":[]},{"Pos":[20,20,8],"Kind":"PostSyn","Tags":[],"Prop":{},"Rels":[]}]`)},
+			commit(R), newver(R, A),
+			{"merge", false, post("node/"+A+"/lm/merge", `[1,2]`)},
+			{"post-element-child", false, post("node/"+A+"/ann/elements", `[{"Pos":[3,3,3],"Kind":"PostSyn","Tags":["t"],"Prop":{},"Rels":[]}]`)},
+			{"cleave", false, post("node/"+A+"/lm/cleave/1", `[2]`)},
+		}}
+
 	// W7: identifier allocation across the mutation-id stride (C12)
 	var idOps []wlOp
 	idOps = append(idOps, newRepo, inst(R, "labelmap", "lm", `,"BlockSize":"16,16,16"`),
@@ -317,7 +369,10 @@ func wlSnapshot(w *wlWorkload, st *wlState) map[string]string {
 				if n, ok := names[u]; ok {
 					return n
 				}
-				return u
+				if strings.HasPrefix(u, "c0ffee") {
+					return u // a caller-assigned version uuid that does not (yet) exist
+				}
+				return "<server-generated-uuid>" // data-instance uuids are random per run
 			})
 		}
 		return v
@@ -346,6 +401,11 @@ func wlSnapshot(w *wlWorkload, st *wlState) map[string]string {
 				if rd == "mapping-all" {
 					mp, x := lmMapping(u, inst, []uint64{1, 2, 3, 4, 5, 6, 7, 8, 9, 200, 300})
 					out[key] = fmt.Sprintf("%d:%v", x.Code, mp)
+					continue
+				}
+				if rd == "ptquery-probe" {
+					x := vsrv.PostS("node/"+u+"/"+inst+"/ptquery", `[[0,0,0],[8,8,8],[17,8,8],[-1,0,-8],[8,0,16],[9,9,0]]`)
+					out[key] = fmt.Sprintf("%d:%s", x.Code, x.Body)
 					continue
 				}
 				x := vsrv.Get("node/" + u + "/" + inst + "/" + rd)
